@@ -14,7 +14,7 @@ def ArgsIn (P : Pos → Prop) (as : List ArgDef) : Prop := ∀ a ∈ as, P a.pos
 def FieldsIn (P : Pos → Prop) (fs : List FieldDef) : Prop :=
   ∀ f ∈ fs, P f.pos ∧ P f.type.pos ∧ ArgsIn P f.args ∧ DirsIn P f.dirs
 def DefIn (P : Pos → Prop) (d : Definition) : Prop :=
-  P d.pos ∧ DirsIn P d.dirs ∧ FieldsIn P d.fields ∧ ∀ v ∈ d.enumValues, DirsIn P v.dirs
+  P d.pos ∧ DirsIn P d.dirs ∧ FieldsIn P d.fields ∧ ∀ v ∈ d.enumValues, P v.pos ∧ DirsIn P v.dirs
 def DirDefIn (P : Pos → Prop) (dd : DirectiveDef) : Prop := P dd.pos ∧ ArgsIn P dd.args
 def SchemaDefIn (P : Pos → Prop) (s : SchemaDef) : Prop := P s.pos ∧ DirsIn P s.dirs ∧ ∀ o ∈ s.opTypes, P o.pos
 
@@ -183,7 +183,8 @@ theorem validateKindSpecific_at {P : Pos → Prop} (st : LState) {d : Definition
     apply chkAt_each
     intro v hv'
     apply chkAt_andThen (chkAt_ite (chkAt_failAt hp _) chkAt_pass)
-    exact validateDirectives_at st (hv v hv') _ _
+    apply chkAt_andThen (validateName_at (hv v hv').1 _)
+    exact validateDirectives_at st (hv v hv').2 _ _
   · apply chkAt_ite (chkAt_failAt hp _)
     apply chkAt_each
     intro f hf'
@@ -407,10 +408,16 @@ theorem setRoots_at {P : Pos → Prop} {types : List (Name × Definition)} {l : 
   | cons o rest ih =>
     intro e he
     simp only [setRoots] at he
+    have ho := hl o (by simp)
+    have hrest : ∀ o' ∈ rest, P o'.pos := fun o' ho' => hl o' (by simp [ho'])
     split at he
     · simp only [Except.error.injEq] at he
-      subst he; exact at_errorPosf (hl o (by simp)) _
-    · exact ih (fun o' ho' => hl o' (by simp [ho'])) _ e he
+      subst he; exact at_errorPosf ho _
+    · repeat' split at he
+      all_goals first
+        | exact ih hrest _ e he
+        | (simp only [Except.error.injEq] at he
+           subst he; exact at_errorPosf ho _)
 
 theorem applySchemaDefs_at {P : Pos → Prop} (st : LState) {l : List SchemaDef} (hl : ∀ s ∈ l, SchemaDefIn P s)
     (r : Roots) (acc : List Directive) : ∀ e, applySchemaDefs st l r acc = .err e → At P e := by
@@ -491,7 +498,7 @@ def argDefPositions (as : List ArgDef) : List Pos := as.flatMap fun a => a.pos :
 def fieldPositions (fs : List FieldDef) : List Pos :=
   fs.flatMap fun f => f.pos :: f.type.pos :: (argDefPositions f.args ++ dirPositions f.dirs)
 def defPositions (d : Definition) : List Pos :=
-  d.pos :: (dirPositions d.dirs ++ fieldPositions d.fields ++ d.enumValues.flatMap fun v => dirPositions v.dirs)
+  d.pos :: (dirPositions d.dirs ++ fieldPositions d.fields ++ d.enumValues.flatMap fun v => v.pos :: dirPositions v.dirs)
 def dirDefPositions (dd : DirectiveDef) : List Pos := dd.pos :: argDefPositions dd.args
 def schemaDefPositions (s : SchemaDef) : List Pos := s.pos :: (dirPositions s.dirs ++ s.opTypes.map (·.pos))
 def docPositions (sd : SchemaDoc) : List Pos :=
@@ -528,11 +535,15 @@ theorem defIn_of {P : Pos → Prop} {d : Definition} (h : ∀ p ∈ defPositions
   · apply fieldsIn_of
     intro p hp; exact h p (by simp [defPositions, hp])
   · intro v hv
+    have hsub : ∀ p ∈ v.pos :: dirPositions v.dirs, P p := by
+      intro p hp
+      apply h p
+      simp only [defPositions, List.mem_cons, List.mem_append, List.mem_flatMap]
+      exact Or.inr (Or.inr ⟨v, hv, by simpa using hp⟩)
+    refine ⟨hsub _ (by simp), ?_⟩
     apply dirsIn_of
     intro p hp
-    apply h p
-    simp only [defPositions, List.mem_cons, List.mem_append, List.mem_flatMap]
-    exact Or.inr (Or.inr ⟨v, hv, hp⟩)
+    exact hsub p (by simp [hp])
 
 theorem docIn_positions (sd : SchemaDoc) : DocIn (· ∈ docPositions sd) sd := by
   refine ⟨?_, ?_, ?_, ?_, ?_⟩
